@@ -41,6 +41,8 @@ def selection_for(lst, k):
     """Two fixed history selections per file (first row/first column of the first table; last/last of the last)."""
     names = lst._tablenames
     code = {"element": "e", "connection": "c", "generation": "g", "primary": "p", "element1": "e1", "element2": "e2"}
+    if k == 3:      # matches nothing: unknown row name, and a table type the listing may not have
+        return [(code[names[0]], "~no~such~", lst._table[names[0]].column_name[0]), ("g9", "zz", "zz")]
     if k == 1:
         t = lst._table[names[0]]
         return [(code[names[0]], t.row_name[0], t.column_name[0])]
@@ -94,7 +96,7 @@ def replay_behaviour(rep, lst, oracle, beh, fname, n, state):
                     ambiguous = (0 <= arg <= 4 * (n - 1) and arg % 4 == 2)
                 elif act == "history":
                     h = lst.history(selection_for(lst, arg))
-                    if h is None:
+                    if h is None and arg != 3:
                         raise RuntimeError("history returned None for a valid selection")
         except core.Hang as e:
             rep.violation("%s:hang:%s" % (lst.simulator, act), "P_terminates",
@@ -225,7 +227,7 @@ def run(tier):
                             arg = 4 * i + d
                             idx = i if d <= 1 else i + 1
                         else:
-                            arg = rng.choice([1, 2])
+                            arg = rng.choice([1, 2, 3])
                         beh.append({"act": act, "arg": arg, "idx": idx, "ret": ret})
                     if state.get("abort"):
                         break
